@@ -460,8 +460,14 @@ namespace sim
 			result_t& operator=(result_t const&) = delete;
 		};
 
+		// wait for m_timer, then serve the front of the queue
+		void wait_for_lookup();
+
 		io_context* m_ios;
 		asio::high_resolution_timer m_timer;
+		// the expiry of m_timer may already be queued for execution when this
+		// object is destroyed. It holds a weak reference to this token
+		std::shared_ptr<int> m_alive = std::make_shared<int>(0);
 		using queue_t = aux::noexcept_movable<std::vector<result_t>>;
 
 		queue_t m_queue;
